@@ -548,13 +548,81 @@ func runC05R6(c *eng.Ctx, r *eng.RuleCtx) {
 		c := builtinCall(info, e, "len")
 		return c != nil && isItems(info, c.Args[0])
 	}
+	// lenPlus: e denotes len(items)+k; single-assignment locals (lastIdx := len(q.items) - 1) are looked through
+	var cur *eng.Func
+	var lenPlus func(info *types.Info, e ast.Expr, depth int) (int64, bool)
+	lenPlus = func(info *types.Info, e ast.Expr, depth int) (int64, bool) {
+		e = ast.Unparen(e)
+		if lenItems(info, e) {
+			return 0, true
+		}
+		if depth > 3 {
+			return 0, false
+		}
+		if b, ok := e.(*ast.BinaryExpr); ok && (b.Op == token.SUB || b.Op == token.ADD) {
+			if v, isC := eng.ConstInt(info, b.Y); isC {
+				if k, ok := lenPlus(info, b.X, depth+1); ok {
+					if b.Op == token.SUB {
+						return k - v, true
+					}
+					return k + v, true
+				}
+			}
+		}
+		if lv, isV := eng.SelObj(info, e).(*types.Var); isV && !lv.IsField() && cur != nil {
+			if _, isIdent := e.(*ast.Ident); isIdent {
+				if es := eng.AssignedExprs(info, cur.Decl.Body, lv); len(es) == 1 {
+					return lenPlus(info, es[0], depth+1)
+				}
+			}
+		}
+		return 0, false
+	}
 	lenMinus1 := func(info *types.Info, e ast.Expr) bool {
-		b, ok := ast.Unparen(e).(*ast.BinaryExpr)
-		if !ok || b.Op != token.SUB || !lenItems(info, b.X) {
+		k, ok := lenPlus(info, e, 0)
+		return ok && k == -1
+	}
+	// atMostOne: the fact implies len(items) <= 1 (written with any comparison of len(items)+k with a constant)
+	atMostOne := func(info *types.Info, fc eng.Fact) bool {
+		if fc.Y != nil {
 			return false
 		}
-		v, ok := eng.ConstInt(info, b.Y)
-		return ok && v == 1
+		b, ok := ast.Unparen(fc.X).(*ast.BinaryExpr)
+		if !ok {
+			return false
+		}
+		k, okL := lenPlus(info, b.X, 0)
+		d, isC := eng.ConstInt(info, b.Y)
+		if !okL || !isC {
+			return false
+		}
+		c := d - k // len OP c
+		op := b.Op
+		if !fc.Pos {
+			switch op {
+			case token.EQL:
+				op = token.NEQ
+			case token.NEQ:
+				op = token.EQL
+			case token.LSS:
+				op = token.GEQ
+			case token.LEQ:
+				op = token.GTR
+			case token.GTR:
+				op = token.LEQ
+			case token.GEQ:
+				op = token.LSS
+			}
+		}
+		switch op {
+		case token.EQL:
+			return c <= 1
+		case token.LEQ:
+			return c <= 1
+		case token.LSS:
+			return c <= 2
+		}
+		return false
 	}
 	single := func(f *eng.Func) (*ast.AssignStmt, ast.Expr, bool) {
 		st := fieldStores(f.Pkg.TypesInfo, f.Decl.Body, items, false)
@@ -611,6 +679,7 @@ func runC05R6(c *eng.Ctx, r *eng.RuleCtx) {
 	}
 	if f := r.NeedFunc(pkgQueue + ".(*TaskQueue).removeLast"); f != nil {
 		info := f.Pkg.TypesInfo
+		cur = f
 		st := fieldStores(info, f.Decl.Body, items, false)
 		good := len(st) >= 1
 		var first *ast.AssignStmt
@@ -628,14 +697,7 @@ func runC05R6(c *eng.Ctx, r *eng.RuleCtx) {
 					// only under len(items)==1
 					g := p.GraphOf(f)
 					n := g.NodeOf(as)
-					isLen1 := func(fc eng.Fact) bool {
-						x, y, eq, ok := eng.EqAtom(fc)
-						if !ok || !eq {
-							return false
-						}
-						v, isC := eng.ConstInt(info, y)
-						return lenItems(info, x) && isC && v == 1
-					}
+					isLen1 := func(fc eng.Fact) bool { return atMostOne(info, fc) }
 					okOne = n != nil && g.OnlyVia(n, nil, g.FactEdge(isLen1))
 				}
 			}
@@ -683,6 +745,7 @@ func runC05R6(c *eng.Ctx, r *eng.RuleCtx) {
 			idOK = true
 			cnt := 0
 			needGuard := false
+			searchIdx := false
 			matched := map[*eng.GNode]bool{}
 			match := func(fc eng.Fact) bool {
 				x, y, eq, ok := eng.EqAtom(fc)
@@ -713,6 +776,29 @@ func runC05R6(c *eng.Ctx, r *eng.RuleCtx) {
 						}
 						continue
 					}
+					// the library search: idx = slices.IndexFunc(items, func(t) bool { return t.GetId() == id }), -1 when absent
+					if cl, isCl := ast.Unparen(st.Rhs[i]).(*ast.CallExpr); isCl && eng.IsPkgFunc(eng.CalleeOf(info, cl), "slices", "IndexFunc") && len(cl.Args) == 2 && isItems(info, cl.Args[0]) {
+						if fl, isL := ast.Unparen(cl.Args[1]).(*ast.FuncLit); isL && fl.Type.Params != nil && len(fl.Type.Params.List) == 1 && len(fl.Type.Params.List[0].Names) == 1 && len(fl.Body.List) == 1 {
+							elemObj := info.Defs[fl.Type.Params.List[0].Names[0]]
+							if ret, isR := fl.Body.List[0].(*ast.ReturnStmt); isR && len(ret.Results) == 1 {
+								x, y, eq, isEq := eng.EqAtom(eng.Fact{X: ret.Results[0], Pos: true})
+								byID := func(a, b ast.Expr) bool {
+									c2, isC2 := ast.Unparen(a).(*ast.CallExpr)
+									if !isC2 || eng.CalleeOf(info, c2) != types.Object(getID) {
+										return false
+									}
+									sel, isS := ast.Unparen(c2.Fun).(*ast.SelectorExpr)
+									return isS && eng.SelObj(info, sel.X) == elemObj && eng.SelObj(info, b) == types.Object(prm)
+								}
+								if isEq && eq && (byID(x, y) || byID(y, x)) {
+									cnt++
+									matched[n] = true
+									searchIdx = true
+									continue
+								}
+							}
+						}
+					}
 					cnt++
 					if g.OnlyVia(n, nil, g.FactEdge(match)) {
 						matched[n] = true
@@ -727,6 +813,39 @@ func runC05R6(c *eng.Ctx, r *eng.RuleCtx) {
 			if idOK && needGuard {
 				sp := g.NodeOf(as)
 				idOK = sp != nil && g.OnlyVia(sp, func(m *eng.GNode) bool { return matched[m] }, nil)
+			}
+			if idOK && searchIdx {
+				// the search answers -1 for an absent id: the splice must be guarded by a test that excludes it
+				sp := g.NodeOf(as)
+				nonNeg := g.FactEdge(func(fc eng.Fact) bool {
+					if fc.Y != nil {
+						return false
+					}
+					b, ok := ast.Unparen(fc.X).(*ast.BinaryExpr)
+					if !ok || eng.SelObj(info, b.X) != idx {
+						return false
+					}
+					k, isK := eng.ConstInt(info, b.Y)
+					if !isK {
+						return false
+					}
+					switch b.Op {
+					case token.LSS: // !(idx < 0)
+						return !fc.Pos && k == 0
+					case token.GEQ: // idx >= 0
+						return fc.Pos && k == 0
+					case token.EQL: // !(idx == -1)
+						return !fc.Pos && k == -1
+					case token.NEQ: // idx != -1
+						return fc.Pos && k == -1
+					case token.GTR: // idx > -1
+						return fc.Pos && k == -1
+					case token.LEQ: // !(idx <= -1)
+						return !fc.Pos && k == -1
+					}
+					return false
+				})
+				idOK = sp != nil && g.OnlyVia(sp, nil, nonNeg)
 			}
 		}
 		r.Check(good && idOK, f.Key, posOf(as), "items = items[:i] ++ items[i+1:], i chosen by GetId()==id", fmt.Sprintf("remove is not `delete the element whose id matches` (splice=%v indexByIdEquality=%v)", good, idOK))
